@@ -10,12 +10,6 @@ def Raise.exitFailureCtor : Raise → Bool
   | .unsupported | .readError | .fmtError => true
   | _ => false
 
-/-- for `Error("fmt {}", n)` with a single int argument: is the resulting solve code (n if n ≥ 100, else 500)
-in the failure class? -/
-def Raise.intArgCodeOK : Raise → Bool
-  | .fmtIntArg n => decide (n < 100 ∨ (500 ≤ n ∧ n ≤ 999))
-  | _ => true
-
 /-- an option token that does not throw -/
 def Opt.clean : Opt → Bool
   | .wantsol _ => true
@@ -91,7 +85,6 @@ theorem reportCode_of_raise (r : Raise) :
     r.toExn.reportCode =
       match r with
       | .withCode c => if c ≥ 100 then c else 500
-      | .fmtIntArg n => if n ≥ 100 then n else 500
       | .infeas => 200
       | .solCheck => 150
       | .wrappedInfeas => 200
@@ -213,7 +206,7 @@ theorem conclude_finished (sc : Scenario) (a : Bool) (w : Nat) :
         else .stderrExit 1
       else .stdoutOnly sc.answer.code (!suppressMsg w) := by
   cases hw : wantsFile a w <;> cases ho : sc.out.writable <;>
-    simp [conclude, handleSolution, hw, ho, reportError, orStderr, okFile]
+    simp [conclude, writeOrRetry, handleSolution, hw, ho, reportError, orStderr, okFile]
 
 /-- Normal form of `conclude` on a run ended by a (non-foreign) exception. -/
 theorem conclude_raised (sc : Scenario) (a : Bool) (w : Nat) (st : Stage) (r : Raise) (hr : r ≠ .foreign) :
@@ -231,14 +224,14 @@ theorem conclude_raised (sc : Scenario) (a : Bool) (w : Nat) (st : Stage) (r : R
         | _ => .stderrExit 1 := by
   have hf : r.toExn ≠ .foreign := fun h => hr ((toExn_foreign_iff r).1 h)
   cases hi : st.insideRun
-  · cases hx : r.toExn <;> simp [conclude, fail, hi, hx]
+  · cases hx : r.toExn <;> simp [conclude, fail, hi, hx, rbaOutcome]
     exact absurd hx hf
   · cases hh : st.handlerAvailable <;> cases hw : wantsFile a w <;> cases ho : sc.out.writable <;>
       simp [conclude, fail, hi, reportError_cases _ _ _ _ _ _ hf, hh, handleSolution, hw, ho, orStderr, errFile, errDims]
 
 theorem conclude_foreign (sc : Scenario) (a : Bool) (w : Nat) (st : Stage) :
     conclude sc (.raised a w st .foreign) = .crash := by
-  cases st <;> simp [conclude, fail, Stage.insideRun, Raise.toExn, reportError]
+  cases st <;> simp [conclude, fail, Stage.insideRun, Raise.toExn, reportError, rbaOutcome]
 
 /-- An ending outside the deviation classes. -/
 def Regular (sc : Scenario) (e : Ending) : Prop :=
@@ -248,7 +241,6 @@ def Regular (sc : Scenario) (e : Ending) : Prop :=
   | .finished a w => wantsFile a w = true                                   -- standalone
   | .raised a w st r =>
       r ≠ .foreign ∧                                                          -- foreign
-      r.intArgCodeOK = true ∧                                                 -- fmtintcode
       (st = .options → sc.dims = ⟨0, 0⟩) ∧                                    -- optdims
       (st = .populate → sc.partialDims = sc.dims) ∧                               -- hdrdims
       (st.handlerAvailable = true → wantsFile a w = true) ∧                   -- standalone
